@@ -12,8 +12,8 @@ CONSTANT NKeys
 Trace == ndJsonDeserialize("trace.ndjson")
 Key == 1..NKeys
 MaxTs == 2147483647
-VARIABLES pos, truth, proj, txns, held, acked, hasTruth, kind, lossless
-hvars == <<pos, truth, proj, txns, held, acked, hasTruth, kind, lossless>>
+VARIABLES pos, truth, proj, txns, held, acked, hasTruth, kind, lossless, lostCommit
+hvars == <<pos, truth, proj, txns, held, acked, hasTruth, kind, lossless, lostCommit>>
 Ev == Trace[pos]
 SetOf(q) == {q[i] : i \in 1..Len(q)}
 Ext(f, k, v) == [x \in DOMAIN f \cup {k} |-> IF x = k THEN v ELSE f[x]]
@@ -103,32 +103,35 @@ FinalRules ==
        (txns[t].beginSeq > a.seq) => Check(txns[t].start >= a.commit, "a transaction began after an acknowledged commit but has a smaller start ts", <<t, a>>)
 
 (********************************** events **********************************)
-Init == pos = 1 /\ truth = EmptyProj /\ proj = EmptyProj /\ txns = <<>> /\ held = {} /\ acked = {} /\ hasTruth = FALSE /\ kind = "none" /\ lossless = FALSE
-Unch == UNCHANGED <<truth, proj, txns, held, acked, hasTruth, kind, lossless>>
+Init == pos = 1 /\ truth = EmptyProj /\ proj = EmptyProj /\ txns = <<>> /\ held = {} /\ acked = {} /\ hasTruth = FALSE /\ kind = "none" /\ lossless = FALSE /\ lostCommit = {}
+Unch == UNCHANGED <<truth, proj, txns, held, acked, hasTruth, kind, lossless, lostCommit>>
 Next ==
   /\ pos <= Len(Trace) /\ pos' = pos + 1
   /\ LET e == Ev IN
      CASE e.ev = "reset" ->
-            /\ truth' = e.truth /\ hasTruth' = e.hastruth /\ proj' = EmptyProj /\ txns' = <<>> /\ held' = {} /\ acked' = {} /\ kind' = e.kind /\ lossless' = e.lossless
+            /\ truth' = e.truth /\ hasTruth' = e.hastruth /\ proj' = EmptyProj /\ txns' = <<>> /\ held' = {} /\ acked' = {} /\ kind' = e.kind /\ lossless' = e.lossless /\ lostCommit' = {}
        [] e.ev = "rpc" ->
-            IF e.executed
-            THEN /\ StateRules(e.proj) /\ HeldRule(e.proj) /\ proj' = e.proj /\ UNCHANGED <<truth, txns, held, acked, hasTruth, kind, lossless>>
-            ELSE Unch
+            \* a commit-point request (2PC: Commit) whose outcome the client could not learn
+            LET lost == IF e.cmd = "Commit" /\ e.fault \in {"drop_req", "drop_resp", "crash_before", "crash_after"} THEN {e.req.start} ELSE {}
+            IN IF e.executed
+               THEN /\ StateRules(e.proj) /\ HeldRule(e.proj) /\ proj' = e.proj /\ lostCommit' = lostCommit \cup lost
+                    /\ UNCHANGED <<truth, txns, held, acked, hasTruth, kind, lossless>>
+               ELSE lostCommit' = lostCommit \cup lost /\ UNCHANGED <<truth, proj, txns, held, acked, hasTruth, kind, lossless>>
        [] e.ev = "api_call" ->
             IF e.c \in {"commit", "rollback"} /\ e.txn \in DOMAIN txns
             THEN /\ held' = {h \in held : h.t # e.txn}
                  /\ txns' = [txns EXCEPT ![e.txn].state = "ending"]
-                 /\ UNCHANGED <<truth, proj, acked, hasTruth, kind, lossless>>
+                 /\ UNCHANGED <<truth, proj, acked, hasTruth, kind, lossless, lostCommit>>
             ELSE Unch
        [] e.ev = "commit_buffer" ->
             \* an insert that was deleted again inside the transaction is only an existence check: it writes nothing
             /\ txns' = [txns EXCEPT ![e.txn].wrote = {e.buffer[i].k : i \in 1..Len(e.buffer)}
                                                       \ {k \in txns[e.txn].inserted : txns[e.txn].buf[k] = 0}]
-            /\ UNCHANGED <<truth, proj, held, acked, hasTruth, kind, lossless>>
+            /\ UNCHANGED <<truth, proj, held, acked, hasTruth, kind, lossless, lostCommit>>
        [] e.ev = "api_ret" ->
             IF e.c = "begin"
             THEN /\ (IF e.class = "nil" THEN txns' = Ext(txns, e.txn, NewTxn(e.client, e.start, e.pess, e.seq)) ELSE UNCHANGED txns)
-                 /\ UNCHANGED <<truth, proj, held, acked, hasTruth, kind, lossless>>
+                 /\ UNCHANGED <<truth, proj, held, acked, hasTruth, kind, lossless, lostCommit>>
             ELSE IF e.c = "recovery_read"
             THEN /\ Unch
                  \* a reader after the crash sees, for every transaction, all of its writes or none of them
@@ -159,26 +162,28 @@ Next ==
                             THEN txns' = [txns EXCEPT ![t].buf[req.k] = IF e.c = "delete" THEN 0 ELSE req.v,
                                                       ![t].inserted = IF e.c = "insert" THEN @ \cup {req.k} ELSE @]
                             ELSE UNCHANGED txns)
-                        /\ UNCHANGED <<truth, proj, held, acked, hasTruth, kind, lossless>>
+                        /\ UNCHANGED <<truth, proj, held, acked, hasTruth, kind, lossless, lostCommit>>
                 [] e.c = "lock" ->
                      LET req == e
                      IN IF e.class = "nil"
                         THEN /\ txns' = [txns EXCEPT ![t].lockfts = [k \in Key |-> IF k \in SetOf(req.ks) /\ @[k] = 0 THEN e.fts ELSE @[k]]]
                              /\ held' = held \cup {[t |-> t, k |-> k] : k \in SetOf(req.ks)}
-                             /\ UNCHANGED <<truth, proj, acked, hasTruth, kind, lossless>>
+                             /\ UNCHANGED <<truth, proj, acked, hasTruth, kind, lossless, lostCommit>>
                              \* a locking read returns the newest committed value
                              /\ \A i \in 1..Len(e.vals) : Check(e.vals[i].val = Visible(proj, e.vals[i].k, MaxTs),
                                                                "locking read did not return the newest committed value", <<t, e.vals[i], Visible(proj, e.vals[i].k, MaxTs)>>)
-                        ELSE /\ txns' = [txns EXCEPT ![t].lockfail = TRUE] /\ UNCHANGED <<truth, proj, held, acked, hasTruth, kind, lossless>>
+                        ELSE /\ txns' = [txns EXCEPT ![t].lockfail = TRUE] /\ UNCHANGED <<truth, proj, held, acked, hasTruth, kind, lossless, lostCommit>>
                 [] e.c = "commit" ->
                      /\ txns' = [txns EXCEPT ![t].state = "ended", ![t].commit = e.commit,
                                              ![t].ack = CASE e.class = "nil" -> "nil" [] e.class = "undetermined" -> "undetermined"
                                                           [] e.class = "crashed" -> "none" [] OTHER -> "other"]
                      /\ acked' = IF e.class = "nil" /\ T.wrote # {} THEN acked \cup {[seq |-> e.seq, commit |-> e.commit]} ELSE acked
-                     /\ UNCHANGED <<truth, proj, held, hasTruth, kind, lossless>>
+                     \* 'undetermined' only when a request that could have moved the commit point was sent and its outcome is unknown
+                     /\ e.class = "undetermined" => Check(T.start \in lostCommit, "Commit answered 'undetermined' although no commit-point request was lost", <<t, T.start>>)
+                     /\ UNCHANGED <<truth, proj, held, hasTruth, kind, lossless, lostCommit>>
                 [] e.c = "rollback" ->
                      /\ txns' = [txns EXCEPT ![t].state = "ended", ![t].ack = "rollback"]
-                     /\ UNCHANGED <<truth, proj, held, acked, hasTruth, kind, lossless>>
+                     /\ UNCHANGED <<truth, proj, held, acked, hasTruth, kind, lossless, lostCommit>>
                 [] OTHER -> Unch
        [] e.ev = "drained" ->
             /\ Unch
